@@ -6,8 +6,14 @@
   (`addValueAt`, `lookup`, `removeAt`, `add`, `child`, …) and hold for ALL path strings — no
   restriction to a safe alphabet is needed.  `Diverge ps qs`: the two component lists share a
   (possibly empty) prefix and then continue with components whose base keys differ.
+  `DivergeIdx ps qs` (YtkProofs/LensIdx.lean) additionally allows the same base key with index
+  groups that differ at some position; `pathSteps`/`Fits` give the frame law for every pair of
+  paths that are not prefix-related.  Padding: a write at `l[3]` into a shorter list creates
+  `l[1]`, `l[2]` holding null — the only other positions that change, from absent to null.
 -/
 import YtkProofs.Builder
+import YtkProofs.LensIdx
+import YtkProofs.ValidB
 
 namespace Ytk.C03
 
@@ -29,6 +35,56 @@ theorem add_index_pads (cur : Option Node) (i j : Nat) (v : Node) (h : j ≠ i) 
       if j < (listOf cur).length then (listOf cur)[j]? else if j < i + 1 then some Node.null else none :=
   setSlot_single_other cur v h
 
+/-- the pad law at any depth: reading below index groups `pre ++ j :: js'` after a write below
+    `pre ++ i :: is'`, `j ≠ i` (`l[2][5]…` against `l[2][1]…`), where `L` is the list found at `pre`
+    before the write — inside `L`: what was there; beyond `L` but below `i`: the slot was padded and
+    holds null; otherwise nothing. -/
+theorem add_index_diverge (cur : Option Node) (pre : List Nat) (i j : Nat) (is' js' : List Nat) (v : Node)
+    (h : j ≠ i) :
+    walkIdx (some (setSlot cur (pre ++ i :: is') v)) (pre ++ j :: js') =
+      if j < (listOf (walkIdx cur pre)).length then walkIdx cur (pre ++ j :: js')
+      else if j < i + 1 then walkIdx (some Node.null) js' else none :=
+  walkIdx_setSlot_diverge pre cur i j is' js' v h
+
+/-- frame (write), list items: `DivergeIdx ps qs` — after a common prefix of components the two
+    paths continue with different base keys, or with the same base key and index groups that differ
+    at some position (`a.l[3].b` against `a.l[1]`, `a.l[1].c`, `a.m` …).  Nothing changes at `qs`,
+    except that a slot created by padding (absent before) now holds null. -/
+theorem addValueAt_frame_index (d : AMap Node) (ps qs : List String) (v : Node) (h : DivergeIdx ps qs) :
+    lookupSegs (addAtSegs d ps v) qs = lookupSegs d qs ∨
+      (lookupSegs d qs = none ∧ lookupSegs (addAtSegs d ps v) qs = some Node.null) :=
+  lookupSegs_addAtSegs_frame_idx h d v
+
+/-- frame (write), every pair of paths: when the written path fits the document (no key step onto
+    an existing list, no index step onto an existing container — the domain of C03), the same holds
+    for EVERY path whose step sequence is not prefix-related to the written one
+    (`pathSteps ["a", "l[1]", "b"]` = key a, key l, idx 1, key b). -/
+theorem addValueAt_frame_steps (d : AMap Node) (ps qs : List String) (v : Node) (hf : Fits d ps)
+    (h1 : ¬ pathSteps ps <+: pathSteps qs) (h2 : ¬ pathSteps qs <+: pathSteps ps) :
+    lookupSegs (addAtSegs d ps v) qs = lookupSegs d qs ∨
+      (lookupSegs d qs = none ∧ lookupSegs (addAtSegs d ps v) qs = some Node.null) :=
+  lookupSegs_addAtSegs_frame_steps d ps qs v hf h1 h2
+
+/-- putting back what is there is the identity: `AddValue(name, Child(name))`, every name. -/
+theorem add_child_back (d : AMap Node) (name : String) (v : Node) (hs : AMap.Sorted d)
+    (h : child d name = some v) : add d name v = d := add_put_back hs h
+
+/-- removing a path at which lookup finds nothing changes nothing. -/
+theorem removeAt_absent (d : AMap Node) (path : String) (hv : (Node.cont d).Valid) (hp : path ≠ "")
+    (h : lookup d path = none) : removeAt d path = d := removeAt_absent_of_ne d path hv hp h
+
+/-- the same on component lists (no side condition; `lookup d "" = none` holds by fiat, whereas
+    `lookupSegs d [""]` looks the empty key up) -/
+theorem removeAtSegs_absent (d : AMap Node) (segs : List String) (hv : (Node.cont d).Valid)
+    (h : lookupSegs d segs = none) : removeAtSegs d segs = d := Ytk.removeAtSegs_absent segs d hv h
+
+/-- `path ≠ ""` cannot be dropped in `removeAt_absent`: Lookup("") is nil by definition, but
+    RemoveAt("") deletes the child with the empty key. -/
+theorem removeAt_absent_empty_path :
+    (Node.cont [("", Node.null)]).Valid ∧ lookup [("", Node.null)] "" = none ∧
+      removeAt [("", Node.null)] "" = [] :=
+  ⟨Node.validB_sound _ (by decide +kernel), by decide +kernel, by decide +kernel⟩
+
 /-- remove-get: after removing a path whose last step is a key, lookup returns nothing there. -/
 theorem lookup_removeAt (d : AMap Node) (segs : List String) (hv : (Node.cont d).Valid) (hne : segs ≠ [])
     (hl : ∀ l, segs.getLast? = some l → hasIdxSuffix l = false) :
@@ -37,6 +93,13 @@ theorem lookup_removeAt (d : AMap Node) (segs : List String) (hv : (Node.cont d)
 /-- frame (remove): nothing changes at a path that diverges from the removed one. -/
 theorem removeAt_frame (d : AMap Node) (ps qs : List String) (h : Diverge ps qs) :
     lookupSegs (removeAtSegs d ps) qs = lookupSegs d qs := lookupSegs_removeAtSegs_frame ps qs d h
+
+/-- frame (remove), every pair of paths: removing `ps` is invisible at every path whose step
+    sequence is not prefix-related to it, list-item components included — no side condition and
+    no padding (removal never creates or replaces a node). -/
+theorem removeAt_frame_steps (d : AMap Node) (ps qs : List String)
+    (h1 : ¬ pathSteps ps <+: pathSteps qs) (h2 : ¬ pathSteps qs <+: pathSteps ps) :
+    lookupSegs (removeAtSegs d ps) qs = lookupSegs d qs := lookupSegs_removeAtSegs_frame_steps d ps qs h1 h2
 
 /-- ListBuilder.Set: length, the written slot, every other slot (padding is null). -/
 theorem list_set_length (xs : List Node) (i : Nat) (v : Node) : (listSet xs i v).length = max xs.length (i + 1) :=
@@ -71,5 +134,19 @@ theorem nonvacuous_run : brun [] exOps = .ok [("a", .cont [("b", .leaf ⟨"int",
   decide
 theorem nonvacuous_diverge : Diverge ["a", "b[2]", "c"] ["a", "x", "c"] :=
   .tail (by simp) (by simp) (.head (by decide))
+
+/-- list-item paths: the two index-divergent shapes, and a fitting target with a step-unrelated path -/
+theorem nonvacuous_divergeIdx :
+    DivergeIdx ["a", "l[3]", "b"] ["a", "l[1]"] ∧ DivergeIdx ["l[2][5]"] ["l[2][1]", "c"] ∧
+    Fits [("a", .cont [("l", .list [Node.null])])] ["a", "l[3]", "b"] ∧
+    ¬ pathSteps ["a", "l[3]", "b"] <+: pathSteps ["a", "l[1]"] ∧
+    ¬ pathSteps ["a", "l[1]"] <+: pathSteps ["a", "l[3]", "b"] ∧
+    lookupSegs [("a", .cont [("l", .list [Node.null])])] ["a", "l[1]"] = none ∧
+    lookupSegs (addAtSegs [("a", .cont [("l", .list [Node.null])])] ["a", "l[3]", "b"] Node.null) ["a", "l[1]"] =
+      some Node.null := by
+  refine ⟨.tail rfl (by simp) (by simp) (.idx (by decide +kernel) ⟨[], 3, 1, [], [], ?_, ?_, by decide⟩),
+    .idx (by decide +kernel) ⟨[2], 5, 1, [], [], ?_, ?_, by decide⟩,
+    fitsB_sound _ _ (by decide +kernel), by decide +kernel, by decide +kernel, by decide +kernel,
+    by decide +kernel⟩ <;> decide +kernel
 
 end Ytk.C03
